@@ -112,9 +112,10 @@ def histories(depth: int) -> list[list[tuple[str, ...]]]:
 
 
 def build(history: list[tuple[str, ...]], spacing: float, scripts: tuple[list[str], ...], late_b: bool, **kw: Any) -> C14Scenario:
-    handlers = [dict(id='c1', on='create', script=['ok']), dict(id='u1', on='update', script=scripts[2] if len(scripts) > 2 else ['ok']),
+    handlers = [dict(id='d1', on='delete', script=['temp', 'ok']),    # a deletion lingers (finalizer): resume handlers meet objects being deleted
+                dict(id='c1', on='create', script=['ok']), dict(id='u1', on='update', script=scripts[2] if len(scripts) > 2 else ['ok']),
                 dict(id='r1', on='resume', script=scripts[0]), dict(id='r2', on='resume', script=scripts[1]),
-                dict(id='r3', on='resume', script=['ok'], deleted=True)]
+                dict(id='r3', on='resume', script=['ok'], deleted=True), dict(id='r4', on='resume', script=['ok'], deleted=False)]
     user: list[tuple] = [(1.0, 'create', 'a'), (6.0, 'restart')]
     t = 6.0
     if late_b:
